@@ -268,7 +268,7 @@ func c09Discharge(c *Ctx, ff *FuncFacts, s PanicSite, via map[*ssa.Function][]st
 				n := CalleeName(call.Common())
 				if n == "container/heap.Push" {
 					pushes++
-					if mi, ok := call.Common().Args[1].(*ssa.MakeInterface); !ok || typeName(mi.X.Type()) != typeName(x.AssertedType) {
+					if mi, ok := ArgK(call, 1).(*ssa.MakeInterface); !ok || typeName(mi.X.Type()) != typeName(x.AssertedType) {
 						good = false
 					}
 				}
@@ -297,7 +297,7 @@ func c09Discharge(c *Ctx, ff *FuncFacts, s PanicSite, via map[*ssa.Function][]st
 				if _, reach := via[site.Fn]; !reach {
 					continue
 				}
-				a := T(site.Call.Common().Args[0])
+				a := T(ArgK(site.Call, 0))
 				if !(a.Op == "list" && len(a.Args) >= 1) {
 					bad = FuncKey(site.Fn) + " passes " + a.String()
 				}
@@ -378,7 +378,7 @@ func checkJSONNil(c *Ctx, fn *ssa.Function) {
 		if CalleeName(call.Common()) != "encoding/json.Unmarshal" {
 			continue
 		}
-		req := stripConv(call.Common().Args[1])
+		req := stripConv(ArgK(call, 1))
 		if _, ok := req.(*ssa.Alloc); !ok {
 			continue
 		}
@@ -404,7 +404,7 @@ func checkJSONNil(c *Ctx, fn *ssa.Function) {
 					case *ssa.FieldAddr:
 						deref = w.X == ssa.Value(ld)
 					case ssa.CallInstruction:
-						if len(w.Common().Args) > 0 && w.Common().Args[0] == ssa.Value(ld) && !w.Common().IsInvoke() {
+						if len(w.Common().Args) > 0 && ArgK(w, 0) == ssa.Value(ld) && !w.Common().IsInvoke() {
 							if g := w.Common().StaticCallee(); g != nil && g.Signature.Recv() != nil {
 								deref = methodDerefsReceiver(g)
 							}
